@@ -53,6 +53,8 @@ func runC09(r *kit.Run) {
 	}
 }
 
+var trickleSink atomic.Int64
+
 // c09Trickle: one broker built by the library's constructor, one reading
 // subscriber, thousands of tiny bursts (1-2 messages), each awaited before
 // the next: a message that stays behind until "the next publish" is stuck
@@ -91,8 +93,15 @@ func c09Trickle(r *kit.Run, idx int64, rng *rand.Rand) {
 			return
 		}
 		for k := 0; k < rounds; k++ {
-			n := 1 + k%2
+			n := 1 + k%3
 			for m := 0; m < n; m++ {
+				if m > 0 {
+					// the follow-up lands anywhere between "the worker is still
+					// dispatching the previous one" and "it has parked again"
+					for spin := rng.IntN(400); spin > 0; spin-- {
+						trickleSink.Add(1)
+					}
+				}
 				sent++
 				h.b.Publish(h.ctx, uint32(sent))
 			}
